@@ -34,11 +34,9 @@ def getIndex (k : Kind) (index : Int) : Kind :=
   | Option.none => Kind.undefined
   | some array =>
     if index < 0 then
-      let largestKnownIndex := array.largestKey
+      -- `largest_known_index = array.known().keys().map(to_usize).max()`, `map_or(0, |i| i + 1)`
       let lenRequired := (-index).toNat
-      let minLength := match largestKnownIndex with
-        | Option.none => 0
-        | some i => i + 1
+      let minLength := array.keyLength
       if array.unknownKind.containsAnyDefined then
         let minIndex := (max ((minLength : Int) + index) 0).toNat
         let canUnderflow := decide ((minLength : Int) + index < 0)
